@@ -489,6 +489,13 @@ func (s *InMemoryStore) DeleteTopic(ctx context.Context, name string) error {
 			delete(s.offsets, key)
 		}
 	}
+	// Committed consumer offsets go with the topic, as in the etcd store.
+	for key := range s.consumerOffsets {
+		if i := strings.LastIndex(key, ":"); i >= 0 && strings.HasSuffix(key[:i], ":"+name) {
+			delete(s.consumerOffsets, key)
+			delete(s.consumerMeta, key)
+		}
+	}
 	return nil
 }
 
